@@ -5,10 +5,12 @@ Source-to-Gallina translation of slot allocation:
   - compiler<Policy>::assign_lattice_slots: the body of its loop over cls.used_by_vp (how the slot of one (method, parameter)
     is chosen and where it is marked used / reserved) is lowered statement by statement into the language of
     coq/Model/MiniSlot.v; the wrapper around it (the mark guard, `if (!cls.used_by_vp.empty())`, the recursion over
-    direct_derived) is matched on the AST;
-  - assign_tree_slots and assign_slots are matched on the AST as a whole (what they are allowed to be is spelled out below).
+    direct_derived) is matched on the AST and, independently, lowered statement by statement (gen_lattice_slots);
+  - assign_tree_slots and assign_slots are matched on the AST as a whole (what they are allowed to be is spelled out below) and,
+    independently, lowered statement by statement into the second language of MiniSlot.v (gen_tree_slots, gen_assign_slots).
 Parsed with translators/_minicpp.py (trace output dropped).  Anything else is refused (exit 3).  Proofs/SlotSource.v proves that
-running the translated body is Model.Compile.lattice_assign.
+running the translated body is Model.Compile.lattice_assign and that running the translated assign_slots over the translated
+recursive functions is Model.Compile.assign_slots.
 """
 import os, re, sys
 
@@ -186,6 +188,141 @@ class Lower:
         self.bad('statement not in the subset', st)
 
 
+class ALower:
+    """assign_tree_slots / the wrapper of assign_lattice_slots / assign_slots, statement by statement -> astmt (Model/MiniSlot.v)"""
+    def __init__(self, fn, named=None):
+        self.fn = fn
+        self.next = None      # the running slot of assign_tree_slots
+        self.mp = None
+        self.pd = None
+        self.named = named or {}
+
+    def bad(self, msg, node):
+        raise mc.Unsupported('%s: %s: %s' % (self.fn, msg, mc.show(node)[:300]))
+
+    def seq(self, sts):
+        sts = nonempty(sts)
+        out = []
+        i = 0
+        while i < len(sts):
+            st = sts[i]
+            if st[0] == 'if' and not st[1] and st[4] is None and nonempty(st[3][1] if st[3][0] == 'block' else [st[3]]) == [('continue',)] \
+                    and st[2] == call0(('member', ('id', 'cls'), 'used_slots', False), 'empty'):
+                out.append('(AIfUsedNonEmpty %s)' % self.seq(sts[i + 1:]))       # if (used_slots.empty()) continue; REST
+                break
+            # auto first_slot = cls.used_slots.find_first(); cls.first_slot = first_slot == npos ? 0 : first_slot;
+            if (st[0] == 'decl' and len(st[2]) == 1 and st[2][0][1] == call0(('member', ('id', 'cls'), 'used_slots', False), 'find_first') and i + 1 < len(sts)):
+                v = ('id', st[2][0][0])
+                nxt = sts[i + 1]
+                npos = ('scoped', ('tmpl', 'boost::dynamic_bitset', ['']), 'npos')
+                if nxt == ('expr', ('assign', '=', ('member', ('id', 'cls'), 'first_slot', False), ('cond', ('bin', '==', v, npos), ('num', 0), v))):
+                    out.append('ASetFirstFromUsed')
+                    i += 2
+                    continue
+            out.append(self.s(st))
+            i += 1
+        out = [t for t in out if t != 'ASkip']
+        if not out:
+            return 'ASkip'
+        r = out[-1]
+        for t in reversed(out[:-1]):
+            r = '(ASeq %s\n   %s)' % (t, r)
+        return r
+
+    def body(self, st):
+        return self.seq(st[1] if st[0] == 'block' else [st])
+
+    def s(self, st):
+        k = st[0]
+        CLS = ('id', 'cls')
+        if k == 'block':
+            return self.seq(st[1])
+        if k == 'decl' and len(st[2]) == 1 and self.fn == 'assign_tree_slots' and st[2][0][1] == ('id', 'base_slot') and self.next is None:
+            self.next = st[2][0][0]
+            return 'ANextFromBase'
+        if k == 'decl' and len(st[2]) == 1 and st[2][0][1] is not None and st[2][0][1][0] == 'lambda':
+            self.named[st[2][0][0]] = st[2][0][1]
+            return 'ASkip'
+        if k == 'rangefor' and isinstance(st[1], str):
+            if st[2] == ('member', CLS, 'used_by_vp', False) and self.mp is None:
+                self.mp = st[1]
+                if self.fn == 'assign_lattice_slots':
+                    self.mp = None
+                    return '(AForUsedBy ALatticeBody)'          # the body is lowered by Lower (gen_lattice_assign)
+                b = self.body(st[3]); self.mp = None
+                return '(AForUsedBy %s)' % b
+            if st[2] == ('member', CLS, 'direct_derived', False) and self.pd is None:
+                self.pd = st[1]
+                b = self.body(st[3]); self.pd = None
+                return '(AForDerived %s)' % b
+            if st[2] == ('id', 'classes') and self.fn == 'assign_slots':
+                return '(AForClasses %s)' % ALower(self.fn, self.named).body(subst(st[3], {st[1]: CLS}))
+        if k == 'if' and not st[1]:
+            c = st[2]
+            if self.fn == 'assign_lattice_slots' and st[4] is None:
+                if c in (('bin', '==', ('member', CLS, 'mark', False), ('id', 'class_mark')), ('bin', '==', ('id', 'class_mark'), ('member', CLS, 'mark', False))) \
+                        and nonempty(st[3][1] if st[3][0] == 'block' else [st[3]]) == [('return', None)]:
+                    return 'AReturnIfMarked'
+                if c == ('un', '!', call0(('member', CLS, 'used_by_vp', False), 'empty')):
+                    return '(AIfUsedByNonEmpty %s)' % self.body(st[3])
+            if self.fn == 'assign_slots':
+                db = ('member', CLS, 'direct_bases', False)
+                if st[4] is None and c in (('bin', '==', call0(db, 'size'), ('num', 0)), call0(db, 'empty')):
+                    return '(AIfRoot %s)' % self.body(st[3])
+                t = self.tree_cond(c)
+                if t is not None and st[4] is not None:
+                    a, b = self.body(st[3]), self.body(st[4])
+                    return '(AIfTree %s %s)' % ((a, b) if t else (b, a))
+        if k == 'expr':
+            e = st[1]
+            if self.mp and self.next:
+                lhs = ('index', ('member', ('member', ('id', self.mp), 'method', False), 'slots', True), ('member', ('id', self.mp), 'param', False))
+                if e == ('assign', '=', lhs, ('post', '++', ('id', self.next))):
+                    return '(ASeq AStoreNext AIncNext)'
+                if e == ('assign', '=', lhs, ('id', self.next)):
+                    return 'AStoreNext'
+            if self.next and e == ('un', '++', ('id', self.next)):
+                return 'AIncNext'
+            if e == ('assign', '=', ('member', CLS, 'first_slot', False), ('num', 0)):
+                return 'AFirstSlotZero'
+            if self.next and e == ('call', ('member', ('member', CLS, 'vtbl', False), 'resize', False), [('id', self.next)]):
+                return 'AVtblResizeNext'
+            if self.pd and self.next and e == ('call', ('id', 'assign_tree_slots'), [('un', '*', ('id', self.pd)), ('id', self.next)]):
+                return 'ARecurseTree'
+            if self.pd and e == ('call', ('id', 'assign_lattice_slots'), [('un', '*', ('id', self.pd))]):
+                return 'ARecurseLattice'
+            if e == ('assign', '=', ('member', CLS, 'mark', False), ('id', 'class_mark')):
+                return 'AMark'
+            if e == ('un', '++', ('id', 'class_mark')):
+                return 'ANewClassMark'
+            if e == ('call', ('id', 'assign_tree_slots'), [CLS, ('num', 0)]):
+                return 'ACallTree0'
+            if e == ('call', ('id', 'assign_lattice_slots'), [CLS]):
+                return 'ACallLattice'
+            us = ('member', CLS, 'used_slots', False)
+            if e == ('call', ('member', ('member', CLS, 'vtbl', False), 'resize', False), [('bin', '-', call0(us, 'size'), ('member', CLS, 'first_slot', False))]):
+                return 'AVtblResizeUsed'
+        self.bad('statement not in the subset', st)
+
+    def tree_cond(self, c):
+        """True: the condition says no covariant class has several direct bases; False: it says one has; None: neither"""
+        cov = ('member', ('id', 'cls'), 'covariant_classes', False)
+
+        def multi(e):
+            if e[0] == 'id' and e[1] in self.named:
+                e = self.named[e[1]]
+            return (e[0] == 'lambda' and len(e[2]) == 1
+                    and e[3] == ('block', [('return', ('bin', '>', call0(('member', ('id', e[2][0]), 'direct_bases', True), 'size'), ('num', 1)))]))
+
+        def rng(a):
+            return len(a) == 3 and a[0] == call0(cov, 'begin') and a[1] == call0(cov, 'end') and multi(a[2])
+        if c[0] == 'bin' and c[1] in ('==', '!=') and c[3] == call0(cov, 'end') and c[2][0] == 'call' and c[2][1] == ('id', 'std::find_if') and rng(c[2][2]):
+            return c[1] == '=='
+        if c[0] == 'call' and c[1] in (('id', 'std::none_of'), ('id', 'std::any_of')) and rng(c[2]):
+            return c[1] == ('id', 'std::none_of')
+        return None
+
+
 def main():
     try:
         src = mc.strip_comments(open(SRC).read())
@@ -328,9 +465,24 @@ def main():
             raise mc.Unsupported('assign_slots changed (expected: ++class_mark; for every class without direct base: a tree walk when no covariant class has two direct bases, else a lattice walk; then, for every class with used slots: first_slot = the first used slot, vtbl.resize(used.size() - first_slot))')
     except mc.Unsupported as e:
         die(str(e))
+    try:
+        def fn_body(name, names=()):
+            params, body, _ = mc.find_function(src, r'\bvoid\s+compiler<Policy>::%s\b' % name, name)
+            return nonempty(mc.parse_function_body(mc.drop_trace(body), names)[1])
+        tree_text = ALower('assign_tree_slots').seq(inline_consts(fn_body('assign_tree_slots')))
+        lat_text = ALower('assign_lattice_slots').seq(fn_body('assign_lattice_slots'))
+        flatb = []
+        for st in fn_body('assign_slots', ('dynamic_bitset',)):
+            flatb.extend(nonempty(st[1]) if st[0] == 'block' else [st])
+        main_text = ALower('assign_slots').seq(flatb)
+    except mc.Unsupported as e:
+        die(str(e))
     out = ('(* GENERATED by translators/slots.py from %s - do not edit.\n'
            '   The body of the loop over cls.used_by_vp in compiler<Policy>::assign_lattice_slots, in the language of Model/MiniSlot.v. *)\n'
-           'From Y2 Require Import Model.MiniSlot.\n\nDefinition gen_lattice_assign : lstmt :=\n %s.\n' % (SRC, text))
+           'From Y2 Require Import Model.MiniSlot.\n\nDefinition gen_lattice_assign : lstmt :=\n %s.\n\n'
+           '(* compiler<Policy>::assign_tree_slots *)\nDefinition gen_tree_slots : astmt :=\n  %s.\n\n'
+           '(* compiler<Policy>::assign_lattice_slots, around the body above *)\nDefinition gen_lattice_slots : astmt :=\n  %s.\n\n'
+           '(* compiler<Policy>::assign_slots *)\nDefinition gen_assign_slots : astmt :=\n  %s.\n' % (SRC, text, tree_text, lat_text, main_text))
     vlib.write_if_changed(os.path.join(vlib.COQ, 'Gen', 'GenSlot.v'), out)
 
 
